@@ -35,7 +35,7 @@ pub fn meta(tier: Tier) -> CheckMeta {
             "effective capacity = the policy's own window+protected+probation sum (probation is at least 1)".into(),
             "maintenance lag (two 32-message buffers) is legitimate slack".into(),
         ],
-        parts: vec![PartSpec { name: "native", nshards: 16, budget_s: tier.pick(300, 2400), env: vec![], program: None }],
+        parts: vec![PartSpec { name: "native", nshards: 16, budget_s: tier.pick(300, 2400), env: vec![], program: None, prepare: None, sanitizer: None }],
         must_be_nonzero: vec![
             ("evictions_observed", "no eviction observed"),
             ("pinned_survived_pressure", "no pinned entry was ever under eviction pressure"),
@@ -274,7 +274,54 @@ struct Cfg {
     len: usize,
 }
 
+/// A pin that is held for the whole history while hundreds of other keys are
+/// pinned, pushed out (found pinned by the eviction, i.e. parked) and released
+/// again: what a long-running query does to the per-query lock table. Everything
+/// released must be evictable again, whatever is still held.
+fn long_pin_script(r: &mut Rng, cap: usize) -> (Vec<Op>, u32) {
+    let n = 300 + r.usize_below(500);
+    let noise0 = 1 + n as u32;
+    let noise_n = (cap as u32 * 6).max(64);
+    let mut ops = vec![Op::Put(0, 1), Op::Pin(0)];
+    let mut nz = 0u32;
+    let hold = 1 + r.usize_below(4);
+    let mut held: std::collections::VecDeque<u32> = std::collections::VecDeque::new();
+    for i in 0..n as u32 {
+        let k = 1 + i;
+        ops.push(Op::Put(k, u64::from(k)));
+        ops.push(Op::Pin(k));
+        held.push_back(k);
+        // pressure: cold keys, enough of them to push `k` through the regions
+        for _ in 0..(2 * cap + 4 + r.usize_below(2 * cap + 4)) {
+            let c = noise0 + (nz % noise_n);
+            nz += 1;
+            ops.push(Op::Put(c, 7));
+            if r.chance(1, 3) {
+                ops.push(Op::Get(c));
+            }
+        }
+        ops.push(Op::Get(0));
+        while held.len() > hold {
+            ops.push(Op::Unpin(held.pop_front().unwrap()));
+        }
+    }
+    while let Some(k) = held.pop_front() {
+        ops.push(Op::Unpin(k));
+    }
+    // a last round of pressure so that maintenance has run after the releases
+    for _ in 0..(4 * cap + 64) {
+        let c = noise0 + (nz % noise_n);
+        nz += 1;
+        ops.push(Op::Put(c, 7));
+    }
+    (ops, noise0 + noise_n + 1)
+}
+
 fn single_thread_history(ctx: &WorkerCtx, rep: &mut Report, r: &mut Rng, c: &Cfg, case: &str) -> bool {
+    scripted_history(ctx, rep, r, c, case, None)
+}
+
+fn scripted_history(ctx: &WorkerCtx, rep: &mut Report, r: &mut Rng, c: &Cfg, case: &str, script: Option<&[Op]>) -> bool {
     let cache: Cache = TinyLFU::new(
         c.cap,
         if c.notify { UnpinStrategy::Notify } else { UnpinStrategy::Poll },
@@ -286,7 +333,7 @@ fn single_thread_history(ctx: &WorkerCtx, rep: &mut Report, r: &mut Rng, c: &Cfg
     let mark = sup::panic_mark();
     let bound_slack = 2 * 33 + 2;
     for i in 0..c.len {
-        let op = gen_op(r, c.universe, c.hot);
+        let op = script.map_or_else(|| gen_op(r, c.universe, c.hot), |s| s[i]);
         ops.push(op);
         let res = catch_unwind(AssertUnwindSafe(|| apply(&cache, c.notify, &mut m, op, &mut out)));
         let fail: Option<(String, String)> = match res {
@@ -460,7 +507,7 @@ fn lock_table_round(ctx: &WorkerCtx, rep: &mut Report, r: &mut Rng, case: &str) 
     let cap = 2 + r.below(7);
     let hot_n = 1 + r.below(4);
     let tasks = 4 + r.usize_below(12);
-    let iters = ctx.tier.pick(300, 3000);
+    let iters = ctx.pick(300, 3000);
     let workers = *r.pick(&[1usize, 2, 4, 8]);
     let rt = if workers == 1 {
         tokio::runtime::Builder::new_current_thread().enable_all().build().unwrap()
@@ -550,7 +597,7 @@ fn lock_table_round(ctx: &WorkerCtx, rep: &mut Report, r: &mut Rng, case: &str) 
 pub fn worker(ctx: &WorkerCtx) -> Report {
     let mut rep = Report::default();
     let base = Rng::new(ctx.seed).derive(1600 + ctx.shard as u64);
-    let n: u64 = if ctx.part == "miri" { 2 } else { ctx.tier.pick(30, 600) };
+    let n: u64 = if ctx.part == "miri" { 2 } else { ctx.pick(300, 5000) };
     let mut seen_sig: HashSet<String> = HashSet::new();
     for i in 0..n {
         let mut r = base.derive(i);
@@ -566,7 +613,7 @@ pub fn worker(ctx: &WorkerCtx) -> Report {
             hot: (cap as u32 * 2).max(4),
             notify: r.chance(1, 2),
             dedicated: r.chance(1, 4),
-            len: if ctx.part == "miri" { 300 } else { ctx.tier.pick(8_000, 60_000) },
+            len: if ctx.part == "miri" { 300 } else { ctx.pick(8_000, 60_000) },
         };
         let case = format!("tinylfu#{i} cap={cap} universe={universe} notify={} dedicated={}", c.notify, c.dedicated);
         ctx.announce(&case);
@@ -584,8 +631,19 @@ pub fn worker(ctx: &WorkerCtx) -> Report {
             rep.sample(Json::obj().set("case", case.as_str()).set("len", c.len));
         }
     }
+    for i in 0..if ctx.part == "miri" { 0 } else { ctx.pick(30u64, 600) } {
+        let mut r = base.derive(20_000 + i);
+        let cap = 1 + r.usize_below(24);
+        let (script, universe) = long_pin_script(&mut r, cap);
+        let c = Cfg { cap, universe, hot: 4, notify: r.chance(1, 3), dedicated: r.chance(1, 4), len: script.len() };
+        let case = format!("tinylfu-long-held-pin#{i} cap={cap} universe={universe} notify={} dedicated={} ops={}", c.notify, c.dedicated, script.len());
+        ctx.announce(&case);
+        rep.evaluations += 1;
+        rep.count("long_held_pin_histories", 1);
+        scripted_history(ctx, &mut rep, &mut r, &c, &case, Some(&script));
+    }
     if ctx.part != "miri" {
-        for i in 0..ctx.tier.pick(3, 40) {
+        for i in 0..ctx.pick(20, 300) {
             let mut r = base.derive(10_000 + i);
             let case = format!("locktable#{i}");
             ctx.announce(&case);
